@@ -2,6 +2,7 @@ package calcium
 
 import (
 	"context"
+	"strings"
 
 	"github.com/projecteru2/core/log"
 	"github.com/projecteru2/core/types"
@@ -13,6 +14,10 @@ func (c *Calcium) AddPod(ctx context.Context, podname, desc string) (*types.Pod,
 	if podname == "" {
 		logger.Error(ctx, types.ErrEmptyPodName)
 		return nil, types.ErrEmptyPodName
+	}
+	if strings.Contains(podname, "/") {
+		logger.Error(ctx, types.ErrSlashInName)
+		return nil, types.ErrSlashInName
 	}
 	pod, err := c.store.AddPod(ctx, podname, desc)
 	logger.Error(ctx, err)
